@@ -233,7 +233,9 @@ class Table(Selectable):
         return not self.__eq__(other)
 
     def __hash__(self) -> int:
-        return hash(str(self))
+        # consistent with __eq__: name, schema and alias (a FOR / FOR PORTION OF clause does not take part in ==)
+        schema = self._schema.get_sql(DEFAULT_SQL_CONTEXT) if self._schema is not None else None
+        return hash((self._table_name, schema, self.alias))
 
     def select(self, *terms: Sequence[int | float | str | bool | Term | Field]) -> "QueryBuilder":
         """
@@ -1433,7 +1435,8 @@ class QueryBuilder(Selectable, Term):  # type:ignore[misc]
         return not self.__eq__(other)
 
     def __hash__(self) -> int:
-        return hash(self.alias) + sum(hash(clause) for clause in self._from)
+        # consistent with __eq__, which compares the alias only
+        return hash(self.alias)
 
     def get_sql(self, ctx: SqlContext | None = None) -> str:
         if not ctx:
